@@ -358,6 +358,92 @@ func C15ClashCatalogue() []*Request {
 	return out
 }
 
+// C15SharedCatalogue: invocations whose generated files SHARE messages. Every annotation-driven schema
+// shape of the feature catalogue (flattened / nested discriminated oneof, plain oneof, flatten with and
+// without prefix, unwrap in all forms, nullable, empty_behavior, int64 / enum / timestamp / bytes
+// encodings, nested declarations, odd names) is defined in a "common" file of its own and reached —
+// directly as request/response type and transitively through a wrapper — from services in two OTHER
+// files (feed.proto, audit.proto). A generator that keeps anything per process (memo tables, "already
+// emitted" sets, name registries) across the files or services of one invocation makes the output of
+// the file generated second differ from what it is when generated first or alone; CheckC15 runs every
+// multi-file request under both orders of file_to_generate, rotated, and one file at a time.
+// Variants: the common files are generated too / only imported; a third service next to the first.
+func C15SharedCatalogue() []*Request {
+	groups := []struct {
+		name string
+		ids  []string
+	}{
+		{"oneof", []string{"ftoneof", "ftoneofflat"}},
+		{"flat", []string{"ftflat", "ftflatmw"}},
+		{"unwrap", []string{"ftunwrap"}},
+		{"enc", []string{"fti64", "fti64rep", "fti64opt", "fti64map", "ftenum", "ftnull", "ftempty", "ftts", "fttsrep", "ftbytes", "ftbytesrep", "ftbytesopt", "fttwo", "fttwob"}},
+		{"plain", []string{"ftplain", "ftnames", "ftnest"}},
+	}
+	var out []*Request
+	for _, g := range groups {
+		for _, variant := range []string{"gen", "imp", "three"} {
+			if variant == "three" && g.name != "oneof" && g.name != "flat" {
+				continue
+			}
+			byID := map[string]*Request{}
+			for _, r := range FeatureCatalogue() { // fresh objects: the files are rewritten below
+				if len(r.Files) == 1 {
+					byID[r.ID] = r
+				}
+			}
+			id := "ordsh" + g.name + variant
+			pkg := id + ".v1"
+			gp := "verifgen/" + id + "/api;api"
+			var commons []*File
+			var tops []string
+			for _, fid := range g.ids {
+				r := byID[fid]
+				if r == nil {
+					continue
+				}
+				f := r.Files[0]
+				for _, s := range f.Services {
+					for _, m := range s.Methods {
+						tops = append(tops, m.In)
+					}
+				}
+				f.Services = nil
+				f.Path = id + "/" + fid + ".proto"
+				f.GoPackage = "verifgen/" + id + "/" + fid + ";" + fid
+				f.Generate = variant != "imp"
+				commons = append(commons, f)
+			}
+			var imports []string
+			for _, c := range commons {
+				imports = append(imports, c.Path)
+			}
+			side := func(name, base string, extraSvc bool) *File {
+				f := &File{Path: id + "/" + strings.ToLower(name) + ".proto", Package: pkg, GoPackage: gp, Generate: true, Imports: imports,
+					Messages: []*Message{M(name+"Req", F("id", 1, "string"))}}
+				svc := &Service{Name: name + "Service", BasePath: base, HasConfig: true}
+				admin := &Service{Name: name + "AdminService", BasePath: base + "/admin", HasConfig: true}
+				for k, t := range tops {
+					page := fmt.Sprintf("%sPage%d", name, k)
+					f.Messages = append(f.Messages, M(page, F("one", 1, "", Msg(t)), F("many", 2, "", Msg(t), Rep()), F("cursor", 3, "string")))
+					svc.Methods = append(svc.Methods,
+						RPC(fmt.Sprintf("Get%d", k), t, t, "POST", fmt.Sprintf("/direct/%d", k)),
+						RPC(fmt.Sprintf("List%d", k), pkg+"."+name+"Req", pkg+"."+page, "POST", fmt.Sprintf("/list/%d", k)))
+					admin.Methods = append(admin.Methods, RPC(fmt.Sprintf("Purge%d", k), pkg+"."+page, t, "PUT", fmt.Sprintf("/purge/%d", k)))
+				}
+				f.Services = []*Service{svc}
+				if extraSvc {
+					f.Services = append(f.Services, admin)
+				}
+				return f
+			}
+			feed := side("Feed", "/feed", variant == "three")
+			audit := side("Audit", "/audit", false)
+			out = append(out, &Request{ID: id, Files: append(append([]*File{}, commons...), feed, audit), Tags: []string{"order", "shared"}})
+		}
+	}
+	return out
+}
+
 func hasTag(r *Request, tag string) bool {
 	for _, t := range r.Tags {
 		if t == tag {
@@ -371,6 +457,7 @@ func CheckC15(run *Run) {
 	run.Proof = CheckProofs("C15")
 	run.Prepare()
 	reqs := append(C15ClashCatalogue(), C15Catalogue()...)
+	reqs = append(reqs, C15SharedCatalogue()...)
 	repeats := 3
 	clashRepeats := 24 // 2^-24 chance to miss a two-name clash left in map order
 	if run.Tier == "thorough" {
@@ -509,14 +596,27 @@ func CheckC15(run *Run) {
 		crs = append(crs, cr)
 		ccs = append(ccs, CoqCase{Term: "(" + coqOrderRequest(c.a.files, c.a.gen) + ",\n " + coqOrderRequest(c.b.files, c.b.gen) + ",\n " + CoqStrList(c.subjects) + ")", Obs: obs})
 	}
-	vs, err := CoqRun(run.WorkDir, "c15", "From Sebuf Require Import Text Json Order.\n", "", "(request * request * list str)", "predict_C15", ccs, 8)
+	// the comparisons of one request sit next to each other and the large requests (many shared files)
+	// make large terms: deal the cases round-robin over the shards CoqRun cuts (contiguous blocks)
+	const shards = 16
+	var perm []int
+	for r := 0; r < shards; r++ {
+		for j := r; j < len(ccs); j += shards {
+			perm = append(perm, j)
+		}
+	}
+	dealt := make([]CoqCase, len(ccs))
+	for k, j := range perm {
+		dealt[k] = ccs[j]
+	}
+	vs, err := CoqRun(run.WorkDir, "c15", "From Sebuf Require Import Text Json Order.\n", "", "(request * request * list str)", "predict_C15", dealt, shards)
 	if err != nil {
 		run.Fatal("model evaluation: %v", err)
 	}
-	for i, cr := range crs {
-		cr.Apply(vs[i])
-		run.Results = append(run.Results, cr)
+	for k, j := range perm {
+		crs[j].Apply(vs[k])
 	}
+	run.Results = append(run.Results, crs...)
 	run.Extra["plugin_processes"] = len(order) * len(Plugins)
 	run.Extra["comparisons"] = len(cmps)
 	run.Extra["output_files_compared"] = filesCompared
